@@ -217,7 +217,10 @@ func (r *valRunner) roundTrip(vc vcase, rp rep, ifaceCheck bool) ([]byte, bool) 
 			if want != "~" {
 				pt, pp, perr = preferredType(dt)
 			}
-			dyn := reflect.TypeOf(ifc.value.Interface())
+			var dyn reflect.Type
+			if ifc.value.IsValid() { // (an outcome the harness could not read back carries no value)
+				dyn = reflect.TypeOf(ifc.value.Interface())
+			}
 			switch {
 			case ifc.status == "unreadable" || pp != nil || perr != nil:
 				r.rep.violation("decoding into interface{} does not give the preferred representation: "+shortType(dt), id+" bytes "+hexOrMark(enc), ifc.err)
